@@ -39,6 +39,11 @@ var psHelperDepth int
 // evalHelperBool evaluates a same-package boolean helper under a valuation of its parameters: known only when every
 // feasible return yields the same boolean.
 func evalHelperBool(h *ssa.Function, hval map[string]int64) (res, known bool) {
+	return evalHelperBoolIdx(h, 0, hval)
+}
+
+// evalHelperBoolIdx: as evalHelperBool, for the boolean at result position idx.
+func evalHelperBoolIdx(h *ssa.Function, idx int, hval map[string]int64) (res, known bool) {
 	if psHelperDepth > 2 || len(h.Blocks) == 0 {
 		return false, false
 	}
@@ -48,10 +53,10 @@ func evalHelperBool(h *ssa.Function, hval map[string]int64) (res, known bool) {
 	seenT, seenF, unknown := false, false, false
 	psReachValV(h, []*ssa.BasicBlock{h.Blocks[0]}, nil, hval, func(b *ssa.BasicBlock, eval func(ssa.Value) (bool, bool)) {
 		r, ok := b.Instrs[len(b.Instrs)-1].(*ssa.Return)
-		if !ok || len(r.Results) == 0 {
+		if !ok || len(r.Results) <= idx {
 			return
 		}
-		v, k := eval(r.Results[0])
+		v, k := eval(r.Results[idx])
 		switch {
 		case !k:
 			unknown = true
@@ -272,6 +277,29 @@ func psReachValV(fn *ssa.Function, starts []*ssa.BasicBlock, cut func(from *ssa.
 									return isNil == (x.Op == token.EQL), true
 								}
 							}
+						}
+					}
+				}
+			}
+		case *ssa.Extract:
+			// the boolean component of a same-package helper's results (result, decided := h(a, b))
+			if cl, isCall := x.Tuple.(*ssa.Call); isCall && val != nil {
+				if b, isB := x.Type().Underlying().(*types.Basic); isB && b.Kind() == types.Bool {
+					if h := cl.Call.StaticCallee(); h != nil && h.Pkg != nil && h.Pkg == fn.Pkg && len(h.Blocks) > 0 && h != fn {
+						hval := map[string]int64{}
+						for i, a := range cl.Call.Args {
+							if v, ok := evalInt(a, 0); ok {
+								hval["p"+strconv.Itoa(i)] = v
+							}
+							da := desc(a)
+							for k, v := range val {
+								if strings.HasPrefix(k, da+".") {
+									hval["p"+strconv.Itoa(i)+k[len(da):]] = v
+								}
+							}
+						}
+						if len(hval) > 0 {
+							return evalHelperBoolIdx(h, x.Index, hval)
 						}
 					}
 				}
